@@ -206,7 +206,7 @@ namespace sim {
 void register_c17() {
     Property p;
     p.id = "C17"; p.level = "exploration";
-    p.rule = "reader-side run: the peer writer emits a file whose schema is a seeded ordered tree (depth <= 6, <= 60 nodes, all REQUIRED/OPTIONAL/REPEATED labelings, 8 physical types, a third of the leaves annotated with a LogicalType that fits the physical type - STRING, ENUM, JSON, BSON, UUID, FLOAT16, DATE, TIME, TIMESTAMP, INTEGER, DECIMAL with parameters -, the root sometimes stating a repetition_type as Arrow C++ does) with data shredded under the true levels (1 tree in 40 is the root alone: a table without columns); num_columns, depth-first leaf order, every element accessor (incl. logical type id and parameters against the parquet.thrift field ids), find_column, the node max-level accessors and - through the column reader - the levels actually used are compared with the textbook definition; builder-side run (1 in 6): a seeded history of 0-400 add_column/add_group calls (a third of the columns with a logical type and its parameters) with accessors checked after every step under a realloc-always-moves allocator, then the schema is written and read back; one evaluation = one tree or one builder step; non-trivial = tree has more than one field; distinct = hash of the labelled tree shape";
+    p.rule = "reader-side run: the peer writer emits a file whose schema is a seeded ordered tree (depth <= 6, <= 60 nodes, all REQUIRED/OPTIONAL/REPEATED labelings, 8 physical types, a third of the leaves annotated with a LogicalType that fits the physical type (a third of those stated through the legacy converted_type field alone) - STRING, ENUM, JSON, BSON, UUID, FLOAT16, DATE, TIME, TIMESTAMP, INTEGER, DECIMAL with parameters -, the root sometimes stating a repetition_type as Arrow C++ does) with data shredded under the true levels (1 tree in 40 is the root alone: a table without columns); num_columns, depth-first leaf order, every element accessor (incl. logical type id and parameters against the parquet.thrift field ids), find_column, the node max-level accessors and - through the column reader - the levels actually used are compared with the textbook definition; builder-side run (1 in 6): a seeded history of 0-400 add_column/add_group calls (a third of the columns with a logical type and its parameters) with accessors checked after every step under a realloc-always-moves allocator, then the schema is written and read back; one evaluation = one tree or one builder step; non-trivial = tree has more than one field; distinct = hash of the labelled tree shape";
     p.quick_runs = 25000; p.thorough_runs = 1200000;
     p.run = run_c17;
     p.assumptions = {"leaf names are unique in generated trees; a top-level column must be found by its name and a nested one by its dot-separated path (as the header documents), while a bare leaf name of a nested column may resolve to it or to nothing; paths through names that themselves contain dots are not looked up",
